@@ -140,6 +140,8 @@ def copyfile(obj, mkdirs=False):
         fp = obj.location
     else:
         fp = existent_fp = obj.location + "#new"
+        # a leftover from an interrupted merge must not be written into (or through)
+        unlink_if_exists(fp)
 
     if fs.isreg(obj):
         obj.data.transfer_to_path(fp)
